@@ -490,7 +490,15 @@ class Fn:
         if 'static' in op:
             return ('ref', ('static', strip_generics(op['static'])))
         if 'promoted' in op:
-            return ('promoted', op['promoted'])
+            idx = op['promoted']
+            if idx < len(self.promoted):
+                pf = self.promoted[idx]
+                rb = pf.return_blocks()
+                if len(rb) == 1:
+                    t = pf.expr_local(0, rb[0], 'T')
+                    if not any(x[0] in ('local', 'arg', 'phi', 'var') for x in walk(t)):
+                        return t
+            return ('promoted', idx)
         if 'int' in op:
             return ('int', op['int'])
         if 'cdef' in op:
